@@ -33,4 +33,10 @@ func registerProps() {
 		Rule: "same generator as C03; oracle over the sender's wire history (every Write stamped with the scheduler step, decoded with the repo's decoders): one FileBegin per file, no (file,chunk) frame twice except the verified chunk once more, one FileEnd per file after its last chunk write, nothing after FileEnd, every needed chunk written or advertised",
 		Real: txReal, Stub: txStub, Assume: txAssume,
 	})
+	reg(&propDef{
+		ID: "C02", Pkg: "internal/transfer", Level: "fault_enumeration",
+		Quick: 3000, Thorough: 120000, QuickWall: 6 * time.Minute, ThorWall: 45 * time.Minute,
+		Rule:   "each run = one seeded workload/configuration/schedule (as C03, 1-4 files) executed once fault-free to count its deliveries, then again with 1-2 faults: graceful close(0) by either side, abrupt loss, context cancel of sender or receiver, bit flip in chunk payload or CRC field, source file shrunk/unlinked after the scan, output path obstructed, n-th receiver file operation failing with ENOSPC/EIO/EACCES; connection-level faults are anchored to a delivery index of the fault-free execution (drawn per run; in the thorough tier every 10th spec places its fault at EVERY delivery index 0..D); non-trivial = a fault actually fired; distinct by decision-log hash",
+		Real: txReal, Stub: txStub, Assume: append([]string{"bit flips model a corrupting peer/NIC below the chunk CRC; QUIC itself authenticates packets"}, txAssume...),
+	})
 }
